@@ -8,7 +8,8 @@ import (
 )
 
 // VerifC03_FailedCommitNoTrace: a transaction whose commit fails (one value does not fit a log record, at a
-// symbolic position of the batch) leaves no trace: none of its keys is visible afterwards, nor after a later
+// symbolic position of the batch) leaves no trace: none of its keys is visible afterwards, nor to a later
+// transaction (which commits nothing of it), nor after a later
 // successful write, a clean close and a reopen (the log must not hold a part of the failed batch).
 func VerifC03_FailedCommitNoTrace() {
 	h := &hEnv{}
@@ -40,6 +41,18 @@ func VerifC03_FailedCommitNoTrace() {
 	for i := 0; i < 3; i++ {
 		_, gerr := e.Get(h.K[i])
 		vsym.Assert(gerr != nil, "a failed commit left one of its writes visible")
+	}
+	// a later transaction (read-only or read-write) inherits nothing of the failed one
+	tx2, err := e.BeginTransaction(vsym.IntRange("laterReadOnly", 0, 1) == 1)
+	vsym.Assert(err == nil, "BeginTransaction after a failed commit failed")
+	for i := 0; i < 3; i++ {
+		_, gerr := tx2.Get(h.K[i])
+		vsym.Assert(gerr != nil, "a later transaction sees a write of a transaction whose commit failed")
+	}
+	vsym.Assert(tx2.Commit() == nil, "the commit of a later transaction failed")
+	for i := 0; i < 3; i++ {
+		_, gerr := e.Get(h.K[i])
+		vsym.Assert(gerr != nil, "a later transaction committed writes of a transaction whose commit failed")
 	}
 	// life goes on: one more acknowledged write on another key, then close and reopen
 	other := vsym.Bytes("other", 2)
